@@ -109,6 +109,12 @@ CHECKS = {
         note="Trusted: z3, CPython, rsx, the 50-line reference matcher. Expression patterns only. One genuine defect class (parentheses of bound operands dropped) is a known finding.",
         design="§5 C19",
     ),
+    "C20": dict(
+        level="other",
+        text="Solver-decided, path-exhaustive within stated bounds (Pattern B): contrib.codeassist.code_assist and get_definition_location (_PythonCodeAssist, fixsyntax.FixSyntax, worder.get_splitted_primary_before, scope lookup) over corpus K20 with symbolic identifier spellings - two-letter slots share or do not share their first letter, so prefix relations between visible names are solver-explored - with the cursor at every (quick: every third) character position, the current line intact or truncated at the cursor, later_locals solver-split. No exception other than rope's own may escape; every proposal extends the typed prefix and is a keyword, a builtin, a keyword-argument of a function of the module or a name visible there under Python's scoping rules; every visible name bound before the cursor line with that prefix is offered; go-to-definition on an identifier leads to a line where its binding is bound.",
+        note="Trusted: z3, CPython, rsx, pybind. Dotted completions, import lines, def/class header lines and positions inside strings/comments are checked for 'no internal error' and prefix only. Bound: corpus K20, identifiers of one or two letters.",
+        design="§5 C20",
+    ),
 }
 
 NOT_YET = "check not built yet (see DESIGN.md §5 for the planned decision procedure)"
